@@ -491,6 +491,7 @@ func (a *App) setup() error {
 		waitFunc:                    waitFunc,
 	}
 	a.onStop("dispatcher+inhibitor", r.stop)
+	verifExpose(a, silences, silencer, notificationLog, alerts, r, peer)
 
 	configCoordinator.Subscribe(r.reload)
 
